@@ -139,21 +139,22 @@ func classify(err error) string {
 // ---------------------------------------------------------------- runner
 
 type Runner struct {
-	t      *Test
-	cfg    Cfg
-	root   string
-	db     *sod.DB
-	out    *json.Encoder
-	slots  map[int]string // slot -> uuid (bound: stored now or earlier)
-	rev    map[string]int // uuid -> slot
-	ghost  []string       // uuids handed out by failed inserts of new objects + random ones
-	seen   map[string]bool
-	used   map[string]map[int]bool // field -> codes used in the test (for probe choice)
-	qf     []string
-	hands  map[int]*sod.Search
-	nev    int
-	recs   []Vals
-	recIdx map[string]int
+	t       *Test
+	cfg     Cfg
+	root    string
+	db      *sod.DB
+	out     *json.Encoder
+	slots   map[int]string // slot -> uuid (bound: stored now or earlier)
+	rev     map[string]int // uuid -> slot
+	ghost   []string       // uuids handed out by failed inserts of new objects + random ones
+	seen    map[string]bool
+	used    map[string]map[int]bool // field -> codes used in the test (for probe choice)
+	qf      []string
+	hands   map[int]*sod.Search
+	nev     int
+	lastMsg string
+	recs    []Vals
+	recIdx  map[string]int
 }
 
 type ev map[string]interface{}
@@ -295,8 +296,13 @@ func (r *Runner) open(create bool) string {
 	sod.LowercaseNames = r.cfg.Lc
 	r.db = sod.Open(r.root)
 	r.hands = map[int]*sod.Search{}
+	r.lastMsg = ""
 	if create {
-		return classify(r.db.Create(r.proto(), r.schema()))
+		err := r.db.Create(r.proto(), r.schema())
+		if err != nil {
+			r.lastMsg = err.Error()
+		}
+		return classify(err)
 	}
 	return "ok"
 }
@@ -430,6 +436,20 @@ func (r *Runner) many(op *Op) {
 	ents := make([]ev, 0, len(op.Batch))
 	befores := make([]string, 0, len(op.Batch))
 	ptrIdx := map[*Rec]int{}
+	// an unbound slot occurring several times in one batch denotes ONE object identity:
+	// give it its identifier beforehand (an identified object keeps its UUID)
+	occ := map[int]int{}
+	for _, b := range op.Batch {
+		if !b.Other && b.SameAs == 0 {
+			occ[b.Slot]++
+		}
+	}
+	pre := map[int]string{}
+	for s, n := range occ {
+		if _, bound := r.slots[s]; !bound && n > 1 {
+			pre[s] = uuid.NewString()
+		}
+	}
 	for i, b := range op.Batch {
 		switch {
 		case b.Other:
@@ -442,6 +462,9 @@ func (r *Runner) many(op *Op) {
 			befores = append(befores, befores[b.SameAs-1])
 		default:
 			o, in := r.object(b.Slot, b.O)
+			if u, ok := pre[b.Slot]; ok {
+				o.Initialize(u)
+			}
 			objs = append(objs, o)
 			ents = append(ents, ev{"slot": b.Slot, "o": in})
 			befores = append(befores, o.UUID())
@@ -520,7 +543,7 @@ func (r *Runner) reopen(op *Op) {
 		c = classify(r.db.Close())
 	}
 	cc := r.open(op.Create)
-	r.emit(ev{"ev": "reopen", "close": op.Close, "create": op.Create, "c": c, "cc": cc})
+	r.emit(ev{"ev": "reopen", "close": op.Close, "create": op.Create, "c": c, "cc": cc, "msg": r.lastMsg})
 }
 
 func (r *Runner) flush(op *Op) {
